@@ -4,6 +4,7 @@ Monitor shape: lift(shape, companions) reference model with a call recorder as t
 compared with the map of their own leaf behaviour; zipper/lens length model; waiter driven on a deterministic event loop through
 EVERY completion order of its awaitables (the monitor logs the completion sequence actually observed)."""
 import random, itertools, asyncio
+import numpy as np
 from .. import core, codec
 from ..core import same, HarnessError, snap, snap_same
 
@@ -22,7 +23,7 @@ ASSUMPTIONS = ['companions are generated to be unambiguous: a container companio
 
 
 def required(tier):
-    return {'lift_model': 400, 'lift_shape_types': 400, 'lib_helpers_map_leaves': 200, 'zipper_model': 200, 'lens_model': 200, 'as_list_idempotent': 100,
+    return {'lift_model': 400, 'lift_shape_types': 400, 'lib_helpers_map_leaves': 200, 'lib_helpers_leaf_oracle': 200, 'zipper_model': 200, 'lens_model': 200, 'as_list_idempotent': 100,
             'waiter_structure_values': 300, 'waiter_distinct_schedules': 100}
 
 
@@ -197,6 +198,10 @@ def gen_companion(rng, x_term, kind):
         return dict(zip(ks, vals))
     if kind == 'odd_list':
         return [rng.choice([7, 8, 'o']) for _ in range(7)]
+    if kind == 'odd_tuple':
+        n = len(children(x_term)[0]) if kind_of(x_term) in ('list', 'tuple') else 2
+        m = rng.choice([k_ for k_ in (0, 1, 3, 5, 7) if k_ != n])
+        return {'$t': [rng.choice([7, 8, 'o']) for _ in range(m)]}
     if kind == 'odd_dict':
         return {'zz1': 1, 'zz2': 'x'}
     if kind == 'overlap_dict':
@@ -227,9 +232,11 @@ def gen_companion(rng, x_term, kind):
 def gen_lift_case(rng):
     leaf = lambda: rng.choice([0, 1, 2, 'x', 'y', None, 2.5, ''])
     x = gen_shape(rng, 0, leaf, rng.randint(1, 4))
+    if rng.random() < 0.05:
+        x = rng.choice([[], {'$t': []}, {}, {'$Dict': {}}])       # an empty container is a container: the result is the empty container of that type
     comps, ckind = {}, {}
     for n in rng.choice([[], ['p'], ['p'], ['p', 'q'], ['q']]):
-        k = rng.choice(['scalar', 'same_shape', 'same_shape', 'top_only', 'odd_list', 'odd_dict', 'overlap_dict', 'overlap_dict', 'near_list'])
+        k = rng.choice(['scalar', 'same_shape', 'same_shape', 'top_only', 'odd_list', 'odd_dict', 'overlap_dict', 'overlap_dict', 'near_list', 'odd_tuple'])
         if k == 'top_only' and len(children(x)[0]) in (0, 7):
             k = 'scalar'
         if k == 'top_only':
@@ -252,10 +259,38 @@ def map_leaves(t, f):
     return f(t)
 
 
+def exact(a, b):
+    """same container types and keys; leaves the very same object or equal values of the same concrete type"""
+    if isinstance(b, (list, tuple)):
+        return type(a) is type(b) and len(a) == len(b) and all(exact(p, q) for p, q in zip(a, b))
+    if isinstance(b, dict):
+        return type(a) is type(b) and list(a.keys()) == list(b.keys()) and all(exact(dict.__getitem__(a, k), dict.__getitem__(b, k)) for k in b)
+    return a is b or (type(a) is type(b) and a == b and repr(a) == repr(b))
+
+
+_isstr = lambda v: type(v) is str
+# what each helper does to ONE leaf, written from its documentation, independent of the library (non-strings / non-floats come back as the very same object)
+LEAF_ORACLE = {
+    'lower': lambda v: v.lower() if _isstr(v) else v,
+    'upper': lambda v: v.upper() if _isstr(v) else v,
+    'strip': lambda v: v.strip() if _isstr(v) else v,
+    'capitalize': lambda v: v.capitalize() if _isstr(v) else v,
+    'proper': lambda v: ' '.join(t.capitalize() for t in v.split(' ')) if _isstr(v) else v,
+    'f12': lambda v: ('%1.2f' % v) if isinstance(v, (float, np.floating)) else v,
+    'replace': lambda v: v.replace('a', 'Q') if _isstr(v) else v,
+    'replace_kw': lambda v: v.replace('b', '') if _isstr(v) else v,
+}
+
+
 def run_helpers(case, ctx):
     import pyg_base as pb
     x = codec.dec(case['x'])
     s0 = snap(x)
+    for name, orc in LEAF_ORACLE.items():
+        call = {'replace': lambda v: pb.replace(v, 'a', 'Q'), 'replace_kw': lambda v: pb.replace(v, old='b', new='')}.get(name) or getattr(pb, name)
+        exp = map_leaves(x, orc)
+        st, got = ctx.call(call, x)
+        ctx.check('lib_helpers_leaf_oracle', st == 'ok' and exact(got, exp), lambda: '%s(%r) = %s %r, leaf by leaf it should be %r' % (name, case['x'], st, got, exp))
     for name, call in (('lower', lambda v: pb.lower(v)), ('upper', lambda v: pb.upper(v)), ('strip', lambda v: pb.strip(v)), ('proper', lambda v: pb.proper(v)),
                        ('f12', lambda v: pb.f12(v)), ('as_float', lambda v: pb.as_float(v)), ('replace', lambda v: pb.replace(v, 'a', 'Q')), ('replace_kw', lambda v: pb.replace(v, old='b', new='')),
                        ('split', lambda v: pb.split(v, ' ')), ('split_dedup', lambda v: pb.split(v, sep=' ', dedup=True)), ('capitalize', lambda v: pb.capitalize(v))):
@@ -481,7 +516,10 @@ def run(spec, ctx):
         if r < 0.6:
             case = gen_lift_case(rng)
         elif r < 0.8:
-            leaf = lambda: rng.choice(['Abc def', ' x ', 'a b  c', 1, 2.5, None, '1.3k', '50%', 'abab', '', 1234.5678, 'A,b'])
+            pool = ['Abc def', ' x ', 'a b  c', 1, 2.5, None, '1.3k', '50%', 'abab', '', 1234.5678, 'A,b']
+            if rng.random() < 0.4:      # leaves that are == and hash-equal but of different kinds
+                pool = pool + [True, 1.0, False, 0.0, {'$np': ['int64', 4]}, 4.0, 4, {'$np': ['float64', 2.5]}, -0.0, 0.0, True, 1.0]
+            leaf = lambda: rng.choice(pool)
             case = {'kind': 'helpers', 'x': gen_shape(rng, 0, leaf, rng.randint(1, 4))}
         else:
             case = gen_zip_case(rng)
